@@ -211,6 +211,32 @@ Proof. exact imported_record_in_store_proved. Qed.
 Print Assumptions imported_record_in_store.
 
 (* ------------------------------------------------------------------ *)
+(* restart                                                              *)
+
+(* PARTIAL (restart_state_is_image): on the initial recovery after the import
+   the record found in the log store is loaded into the state machine -
+   regular, concurrent or on-disk, whatever index the on-disk state machine
+   reports as already applied (the Imported flag forces it; observation O5: the
+   OnDiskIndex that getProcessedSnapshotRecord does not copy is never
+   consulted).  Missing for the full statement "every replica's state equals
+   the exported state": snapshotter.Load (image -> state machine = C08/C14
+   round trip) and the non-shrunk test are taken as given; the end-to-end runs
+   check the resulting state on the real code. *)
+Theorem restart_loads_imported_image_partial : forall dst old members on_disk_sm last_applied ondisk_init ondisk,
+  s_dummy old = false -> last_applied < s_index old ->
+  do_recover on_disk_sm false last_applied ondisk_init ondisk (get_processed dst old members) true = RcLoaded.
+Proof. exact restart_loads_imported_image. Qed.
+Print Assumptions restart_loads_imported_image_partial.
+
+(* without the flag the same record is skipped by an on-disk state machine that
+   has applied anything at all *)
+Theorem restart_without_imported_flag_refuted :
+  exists ss ondisk, s_imported ss = false /\ s_index ss = 100 /\
+    do_recover true false 0 ondisk ondisk ss true = RcSkipped.
+Proof. exact restart_without_flag_skips. Qed.
+Print Assumptions restart_without_imported_flag_refuted.
+
+(* ------------------------------------------------------------------ *)
 (* non-vacuity: a concrete export (members 1,2 voting, 3 non-voting, 7 removed;
    a one-block snapshot file) imported on replica 1 with the list {1, 4}       *)
 
